@@ -5,7 +5,7 @@ open KeepVerif.C39
 
 def parseOp : String → Option Op
   | "g" => some .gen | "gf" => some .genFail | "gw" => some .genFailWrote | "gn" => some .genNil
-  | "gc" => some .genCrash | "t" => some .take | "tf" => some .takeFail
+  | "gc" => some .genCrash | "gt" => some .genTorn | "t" => some .take | "tf" => some .takeFail
   | "tb" => some .takeCrashBefore | "ta" => some .takeCrashAfter
   | "r" => some .restart | "rf" => some .restartFail
   | _ => none
@@ -33,8 +33,15 @@ def parseOut (s : String) : Option Out :=
 def field (pre : String) (tok : String) : Option String :=
   if tok.startsWith pre then some (tok.drop pre.length).toString else none
 
-def model (line : String) : String :=
+/-- `pool <size> <steps>` (harness persistence) and `ppool <size> <order-seed> <steps>` (the real
+    preParamsStorage; the order in which the handle lists the files must not matter). -/
+def normalize (line : String) : List String :=
   match splitWs line with
+  | ["ppool", sz, _, steps] => ["pool", sz, steps]
+  | l => l
+
+def model (line : String) : String :=
+  match normalize line with
   | ["pool", sz, steps] =>
     match sz.toNat?, (splitList steps).mapM parseOp with
     | some size, some ops =>
@@ -44,8 +51,9 @@ def model (line : String) : String :=
   | _ => "bad-op"
 
 def monitor (op obs : String) : String :=
-  match splitWs op with
+  match normalize op with
   | ["pool", sz, _] =>
+    if (obs.splitOn "?").length > 1 then "FAIL invalid-parameter-served" else
     match sz.toNat?, splitWs obs with
     | some size, [o, c, d] =>
       match (field "outs=" o).bind (fun x => (splitList x).mapM parseOut),
